@@ -25,10 +25,12 @@ LEVEL_NOTE = ("Determinism is a property of the runtime: half (B) is sampling, n
               "translate exactly. Symmetries compare COSTS only (the route may differ among equal-cost alternatives).")
 TECHNIQUE = "Lean 4 invariance/uniqueness theorems (logic half) + run-twice / frame-change differential harness decided by an exact Lean driver (runtime half)"
 DESIGN_REF = "DESIGN.md section 6 C20"
-RULE = ("11 generator slots per round (30 rounds quick, 150 thorough): route-twice polyline, route-twice orthogonal, vpsc-twice, layout-twice, "
+RULE = ("11 generator slots per round (250 rounds quick, 1200 thorough): route-twice polyline, route-twice orthogonal, vpsc-twice, layout-twice, "
         "removeoverlaps-twice (all centres distinct), removeoverlaps-coincident (groups of rectangles sharing a centre), route-translate, "
-        "route-symmetry polyline, route-symmetry orthogonal (all 7 non-trivial symmetries per scene), vpsc-translate, vpsc-permute. "
-        "Scenes: 1-7 integer rectangles in grid cells, 1-4 connectors with ends on cell-border lines, segmentPenalty in {0,1,3,10,50}, "
+        "route-symmetry polyline, route-symmetry orthogonal (all 7 non-trivial symmetries per scene), vpsc-translate, vpsc-permute "
+        "(route-translate on orthogonal scenes carries the tag route-translate-orth). "
+        "Scenes: 1-7 (thorough: up to 14) integer rectangles in grid cells, 1-7 connectors with ends on cell-border lines, segmentPenalty in "
+        "{0,1,3,10,50}, shapeBufferDistance 0 or 1/2, "
         "optionally a shape move + second transaction. A *-twice case is non-trivial if the two runs saw different heap address "
         "orders (probe) and produced output; a frame case if some route bends / some variable is moved by a constraint.")
 TRUSTED_BASE = ["Lean 4.33 kernel", "axioms: propext, Classical.choice, Quot.sound", "harness/c20.cpp (generators, frame images of scenes, heap perturbation)",
